@@ -457,10 +457,13 @@ func (C10) Run(t *testing.T, plan *kernel.Plan, keepLog bool) *kernel.Result {
 								storeCalls = 0
 								ictx := common.TokenContext{ClientID: []byte(is.ctx)}
 								_, tpv := Guard(func() error { _, e := dt.Tokenize([]byte(is.value), ictx, setting); return e })
+								if int64(storeCalls) > w.Res.Extra["window_tokenize_store_calls_max"] {
+									w.Res.Extra["window_tokenize_store_calls_max"] = int64(storeCalls)
+								}
 								if tpv != nil {
 									w.Violate("C10", "no-panic", site+"/tokenize", fmt.Sprint(tpv))
 								} else if storeCalls > c10CallBudget {
-									w.Violate("C14", "request-ends", site+"/tokenize-during-window", fmt.Sprintf("tokenizing %q again while its record is %s took more than %d store calls and was cut off", is.value, map[common.TokenAction]string{common.TokenDisable: "disabled", common.TokenRemove: "removed"}[action], c10CallBudget))
+									w.Violate("C10", "request-ends", site+"/tokenize-during-window", fmt.Sprintf("tokenizing %q again while its record is %s took more than %d store calls and was cut off", is.value, map[common.TokenAction]string{common.TokenDisable: "disabled", common.TokenRemove: "removed"}[action], c10CallBudget))
 								}
 								storeCalls = 0
 							}
